@@ -14,6 +14,7 @@ partial def jStrings : J → List String
   | .str s => [s]
   | .arr xs => xs.flatMap jStrings
   | .obj kvs => kvs.flatMap fun kv => jStrings kv.2
+  | .raw v => jStrings v        -- string operators and `matches` parse a raw context value
   | _ => []
 
 def ctxStrings (c : Ctx) : List String :=
@@ -22,7 +23,7 @@ def ctxStrings (c : Ctx) : List String :=
 
 def clausePatterns (cs : List Clause) : List String :=
   cs.flatMap fun c => if c.op == "matches" then c.values.flatMap fun v =>
-    match v with | .str s => [s] | _ => [] else []
+    match v.unraw with | .str s => [s] | _ => [] else []   -- `parseRegexp` parses a raw pattern
 
 def flagPatterns (f : Flag) : List String := f.rules.flatMap fun r => clausePatterns r.clauses
 def segPatterns (s : Segment) : List String := s.rules.flatMap fun r => clausePatterns r.clauses
@@ -54,6 +55,7 @@ partial def canonTree : J → J
   | .num q => .num (SoftF64.rnd q)
   | .arr xs => .arr (xs.map canonTree)
   | .obj kvs => .obj ((kvs.map fun kv => (kv.1, canonTree kv.2)).toArray.qsort (fun a b => a.1 < b.1)).toList
+  | .raw v => canonTree v       -- the marshaller writes a raw value's text: the document holds the parsed value
   | v => v
 
 def semverOut : Option SemVer → Json
